@@ -6,6 +6,7 @@ From Coq Require Import List NArith ZArith Bool String.
 Import ListNotations.
 Require Import PyStr Regex Regexes NumLit Num HeaderLine Tables.
 Open Scope string_scope.
+Open Scope list_scope.
 Open Scope N_scope.
 
 (* ---- case mapping (str.upper / str.lower): ASCII exact; other code points unchanged ---- *)
